@@ -87,7 +87,9 @@ OnEnd ==
   /\ Is("end") /\ exp # <<>> /\ Head(exp).e = "end" /\ Head(exp).reason = Ev.reason
   /\ st = "ending"
   /\ exp' = Tail(exp) /\ st' = "ended"
-  /\ UNCHANGED <<cfg, db, buf, wfail, hnd>> /\ Next1
+  \* bytes the peer sent that the session never read are gone with the connection
+  /\ buf' = SubSeq(buf, 1, Len(buf) - Min2(Ev.unread, Len(buf)))
+  /\ UNCHANGED <<cfg, db, wfail, hnd>> /\ Next1
 
 Ending(reason) == exp' = <<[e |-> "end", reason |-> reason]>> /\ st' = "ending"
 
